@@ -1,8 +1,9 @@
 import Driver.Codec
 import Driver.C06
+import Driver.C10
 open Lean Nutree Driver
 
-def handlers : List (St → String → Json → Option (E Json)) := [handleC06]
+def handlers : List (St → String → Json → Option (E Json)) := [handleC06, handleC10]
 
 def dispatch (st : St) (j : Json) : St × Json :=
   match j.getObjVal? "op" >>= Json.getStr? with
